@@ -72,6 +72,8 @@ func c16(c *Ctx) {
 	c.registerBeforeWrite("R16.O")
 	r.Rule("R16.X", "no waiter channel is closed by the table or the receive path (a send on a closed channel panics in the receive goroutine)", 1)
 	c.noWaiterClose("R16.X")
+	r.Rule("R16.B", "the receive goroutine never blocks on a channel nobody reads: every send it performs goes to the channel registered under the id the server echoed for one request", 2)
+	c.receiveSendsTargeted("R16.B")
 	r.Rule("R16.W", "the receive goroutine is registered in routineswg (Add/Done): nothing reachable from it may Wait on that group", 1)
 	{
 		tr2 := an.NewTracer()
